@@ -181,6 +181,8 @@ class Stats:
 
 
 DEFAULT_OVERRIDES = []
+TDIV = z3.Function('tdiv', z3.IntSort(), z3.IntSort(), z3.IntSort())
+TREM = z3.Function('trem', z3.IntSort(), z3.IntSort(), z3.IntSort())
 
 
 class Machine:
@@ -257,6 +259,16 @@ class Machine:
         self.decisions.append(feas[0])
         self.assume(conds[feas[0]])
         return feas[0]
+
+    def choose_n(self, n, cond_fn):
+        """like choose() over cond_fn(0..n-1) but builds only the needed condition when replaying a prefix"""
+        pos = len(self.decisions)
+        if pos < len(self.prefix):
+            k = self.prefix[pos]
+            self.decisions.append(k)
+            self.assume(cond_fn(k))
+            return k
+        return self.choose([cond_fn(i) for i in range(n)])
 
     def branch_bool(self, b):
         """returns python bool for a possibly symbolic bool, forking"""
@@ -648,7 +660,11 @@ class Machine:
             ay = abs(y)
             self.assume(z3.And(z3.If(x >= 0, z3.And(r >= 0, r < ay), z3.And(r <= 0, r > -ay))))
             return q, r
-        raise Unsupported('division by symbolic divisor')
+        # symbolic divisor: uninterpreted truncated quotient/remainder + the linear part of their contract
+        q, r = TDIV(x, y), TREM(x, y)
+        ay = z3.If(y >= 0, y, -y)
+        self.assume(z3.And(z3.Implies(x >= 0, z3.And(r >= 0, r < ay)), z3.Implies(x <= 0, z3.And(r <= 0, -r < ay))))
+        return q, r
 
     # ------------------------------------------------------------ execution
     def call_body(self, body, args, tyenv, start_bb='bb0', init_locals=None):
